@@ -63,9 +63,13 @@ Proof. vm_compute. reflexivity. Qed.
 (* ------------------------------------------------------------------------------------------
    The remaining theorems are about clients that do not call hash_check while the completion /
    error notification of a previous check is still waiting in the scheduler (explicit
-   hypothesis [polite]: at every OCheck in the list, s_delay = false).  Everything else — order
-   and number of deliveries, stop/close at any point, quick or full checks, re-opening — is
-   arbitrary. *)
+   hypothesis [polite]: at every OCheck in the list, s_delay = false) and where the memory manager
+   is not under pressure whenever pieces get queued (OLimit None at OCheck / ODeliver / ORunAll; no
+   retry timer pending at OAdvance).  Everything else — order and number of deliveries, stop/close at
+   any point, quick or full checks, re-opening, memory pressure switched on and off in between — is
+   arbitrary.  Histories that queue pieces UNDER memory pressure (ENOMEM retry) are covered by the
+   unconditional theorems (check_exact_sound, check_readonly, stop_erases_all_timers) and by the
+   correspondence run. *)
 
 (* no legal history raises an internal_error (the model's s_ierr covers every throw site of the
    modelled functions, including ChunkList::clear's "still referenced" and the fuel of queue()) *)
@@ -121,7 +125,7 @@ Proof. vm_compute. repeat split; reflexivity. Qed.
 Theorem check_terminates : forall H pl expected fs0 ops,
   polite H pl expected (init fs0) ops ->
   let s := run H pl expected ops (init fs0) in
-  is_checking s = false -> s_delay s = false ->
+  is_checking s = false -> s_delay s = false -> s_lim s = None ->
   let s1 := do_check pl false s in
   is_checking (run_all H pl expected (run_all_fuel s1) s1) = false.
 Proof. exact ProofsH.check_terminates. Qed.
@@ -151,7 +155,7 @@ Theorem storage_error_sound : forall H pl expected fs0 ops,
   polite H pl expected (init fs0) ops ->
   let s := run H pl expected ops (init fs0) in
   (forall bl i, s_bits s = Some bl -> nth i bl false = true -> valid H pl expected fs0 i = true) /\
-  (s_delay s = true -> is_checking s = false ->
+  (s_delay s = true -> is_checking s = false -> s_lim s = None ->
      let s1 := do_tick s in
      s_storerr s1 = true /\ s_open s1 = false /\ s_bits s1 = None /\ s_nodes s1 = [] /\ s_hq s1 = [] /\
      s_ierr s1 = false /\
@@ -166,4 +170,22 @@ Example storage_error_sound_nonvacuous :
   let s := run (fun b => b) 2%N (fun _ => []) ops (init fs0) in
   polite (fun b => b) 2%N (fun _ => []) (init fs0) ops /\ s_delay s = true /\ is_checking s = false /\
   s_errno s = true /\ s_storerr (do_tick s) = true.
+Proof. vm_compute. repeat split; reflexivity. Qed.
+
+(* stop_erases_all_timers: in ANY state, after hash_stop during a check and after close, neither the
+   completion/error notification (m_delay_checked) nor the ENOMEM retry (m_delay_retry) is scheduled,
+   and advancing the clock changes nothing: HashTorrent::queue cannot run on a stopped checker. *)
+Theorem stop_erases_all_timers : forall pl s,
+  (is_checking s = true -> s_delay (do_stop s) = false /\ s_retry (do_stop s) = false /\
+                           do_advance pl (do_stop s) = do_stop s) /\
+  (s_delay (do_close s) = false /\ s_retry (do_close s) = false /\ do_advance pl (do_close s) = do_close s).
+Proof. exact ProofsH.stop_erases_all_timers. Qed.
+Print Assumptions stop_erases_all_timers.
+
+(* under memory pressure with nothing outstanding the check waits on the retry timer; stop erases it *)
+Example stop_erases_all_timers_nonvacuous :
+  let fs0 := [fresh_file 4 false (Bytes [1;2;3;4]%N)] in
+  let s := run (fun b => b) 2%N (fun _ => []) [OOpen; OLimit (Some 0); OCheck false] (init fs0) in
+  is_checking s = true /\ s_retry s = true /\ s_retry (do_stop s) = false /\
+  s_ierr (run (fun b => b) 2%N (fun _ => []) [OOpen; OLimit (Some 0); OCheck false; OStop; OAdvance] (init fs0)) = false.
 Proof. vm_compute. repeat split; reflexivity. Qed.
